@@ -836,11 +836,13 @@ class Xsd11AnyAttribute(XsdAnyAttribute):
             namespace = default_namespace
 
         if '##defined' in self.not_qname and name in self.maps.attributes:
+            # A global attribute declared in any document of the schema
+            # (not the ones that are available only through the meta-schema)
             xsd_attribute = self.maps.attributes[name]
             if isinstance(xsd_attribute, tuple):
-                if xsd_attribute[1] is self.schema:
+                if xsd_attribute[1].maps is self.maps:
                     return False
-            elif xsd_attribute.schema is self.schema:
+            elif xsd_attribute.schema.maps is self.maps:
                 return False
 
         return name not in self.not_qname and self.is_namespace_allowed(namespace)
